@@ -32,7 +32,13 @@ class C11(Property):
         cases = []
         k = 0
         while len(cases) < n:
-            opts, names = gen.gen_options(rng, features=("alt", "cmd", "pos", "adj"), allow_catch=False, env_p=0.0)
+            opts, names = gen.gen_options(rng, features=("alt", "cmd", "pos", "adj", "grp"), allow_catch=False, env_p=0.0)
+            # fallback_to_usage turns failures on an EMPTY line into the usage screen (stdout, status 0); make it common
+            # enough that failures on non-empty lines under it are exercised on every run
+            if rng.random() < 0.3:
+                for o in [opts] + [x["options"] for x in gen.walk(opts["p"]) if x["k"] == "cmd"]:
+                    if rng.random() < 0.7:
+                        o["fallback_to_usage"] = True
             for j in range(3):
                 argv = gen.gen_argv(rng, opts)
                 m = rng.random()
